@@ -46,8 +46,9 @@ class C02(Prop):
             cut = rng.randint(1, len(evs))
             tail = [["adv", str(rng.choice([1, 5, 10]))], ["run"], ["emit", "0", ["n", "99"]], ["adv", "20"], ["run"]]
             evs = evs[:cut] + [["unsub"]] + evs[cut:] + tail
-            out.append(Case("time", rng.choice(["local", "threads"]), [("pipe", [pipe])], evs,
-                            {"kind": "time-" + mode, "cut": cut}))
+            fl = rng.choice(["local", "threads"])
+            fields = ([("locktrace", ["1"])] if fl == "threads" else []) + [("pipe", [pipe])]
+            out.append(Case("time", fl, fields, evs, {"kind": "time-" + mode, "cut": cut}))
         return out
 
     def _cut(self, case):
@@ -60,9 +61,16 @@ class C02(Prop):
         return self._cut(case)
 
     def project(self, body):
-        return body
+        from .c10 import strip_lock
+        return strip_lock(body)
 
     def oracle(self, case, lines, model_lines=None):
+        # thread-safe form: unsubscribe() can only wait for a running task if the task body runs
+        # inside the section of its handle's mutex (lock trace through hook H2)
+        from .c19 import handle_section_failure
+        f = handle_section_failure(case, lines)
+        if f:
+            return f
         cut = self._cut(case)
         for k in range(cut, len(case.events)):
             b = lines.get(k)
